@@ -348,3 +348,45 @@ WITNESSES = [
                 ("        itmd = Intermediates().available.get(self.longname(True), None)\n        if itmd is None:\n            logger.warning(",
                  "        itmd = self.intermediate\n        if itmd is None:\n            logger.warning(")]),
 ]
+
+# ---------------------------------------------------------------------- round 4: sort keys that do not separate the elements
+_ITMD_OLD = ("            spaces = [s.space_and_spin for s in base_contracted]\n            kwargs = Counter(\n"
+             "                f\"{sp}_{spin}\" if spin else sp for sp, spin in spaces\n            )\n"
+             "            contracted = Indices().get_generic_indices(**kwargs)\n            for new in contracted.values():\n"
+             "                new.reverse()\n            for old, sp in zip(base_contracted, spaces):\n"
+             "                subs[old] = contracted[sp].pop()\n            if any(li for li in contracted.values()):\n"
+             "                raise RuntimeError(\"Generated more contracted indices than \"\n"
+             "                                   f\"necessary. {contracted} are left.\")\n")
+
+
+def _itmd_new(src):
+    return ("            def space_and_spin(s): return s.space_and_spin\n"
+            f"            base_contracted = sorted({src}, key=space_and_spin)\n"
+            "            for key, old in groupby(base_contracted, key=space_and_spin):\n                old = tuple(old)\n"
+            "                sp, spin = key\n                kwargs = {f\"{sp}_{spin}\" if spin else sp: len(old)}\n"
+            "                new = Indices().get_generic_indices(**kwargs)[key]\n"
+            "                subs.update({o: n for o, n in zip(old, new)})\n")
+
+
+_ITMD_IMPORT = ("from itertools import product, chain\n", "from itertools import product, chain, groupby\n")
+WITNESSES += [
+    # contracted indices de-duplicated with set() and sorted by a key that does not separate them (held-out seed C19-9)
+    dict(id="c19-sorted-set-partial-key", prop="C19", file=IM, expect="R19a",
+         edits=[_ITMD_IMPORT, (_ITMD_OLD, _itmd_new("set(base_contracted)"))]),
+    # the same grouping on the ordered tuple: the stable sort keeps the order of the definition within a space
+    dict(id="c19-ok-sorted-tuple-partial-key", prop="C19", file=IM, expect=None,
+         edits=[_ITMD_IMPORT, (_ITMD_OLD, _itmd_new("base_contracted"))]),
+    # one element chosen among the ties of a set
+    dict(id="c19-min-of-set-partial-key", prop="C19", file=E, expect="R19a",
+         old="        remaining_idx = result.atoms(Index)\n        assert len(remaining_idx) == 1  # only one of the indices can survive\n"
+             "        remaining_idx = remaining_idx.pop()",
+         new="        remaining_idx = min(result.atoms(Index), key=lambda s: s.space)"),
+    # a set sorted with the canonical (total) key may be read in order
+    dict(id="c19-ok-sorted-set-total-key", prop="C19", file=IM, expect=None,
+         old="            contracted = tuple(sorted(\n                [s for s in itmd.atoms(Index) if s not in target],\n                key=sort_idx_canonical\n            ))\n        else:\n            contracted = (j, k, b, c)",
+         new="            contracted = tuple(sorted(itmd.atoms(Index) - set(target), key=sort_idx_canonical))\n        else:\n            contracted = (j, k, b, c)"),
+    # ... but not with a key that only looks at the name
+    dict(id="c19-sorted-set-by-name", prop="C19", file=IM, expect="R19a",
+         old="            contracted = tuple(sorted(\n                [s for s in itmd.atoms(Index) if s not in target],\n                key=sort_idx_canonical\n            ))\n        else:\n            contracted = (j, k, b, c)",
+         new="            contracted = tuple(sorted(itmd.atoms(Index) - set(target), key=lambda s: s.name[0]))\n        else:\n            contracted = (j, k, b, c)"),
+]
